@@ -98,3 +98,28 @@ Definition maxdist (g : graph) : nat :=
 (* histories in which nothing is ever lost: routers start, neighbours appear, advertisements are fetched *)
 Definition is_growth (e : event) : bool :=
   match e with Fetch _ _ | NbrUp _ _ | RouterUp _ => true | _ => false end.
+
+(* ---- quiescence ---- *)
+(* the cost router r stores for destination d through next hop h (INF if none) *)
+Definition cost_via (r : rib) (d h : node) : N :=
+  match aget d r with
+  | Some e => match aget h (costs e) with Some c => c | None => INF end
+  | None => INF
+  end.
+
+(* the cost a router named self would store for d after processing the advertisement of a router whose RIB is rj *)
+Definition offered (self : node) (rj : rib) (d : node) : N :=
+  match aget d rj with
+  | Some e => let c := adv_cost self (mkAdv d (nh1 e) (low1 e) (low2 e)) in if INF <=? c then INF else c
+  | None => INF
+  end.
+
+(* every router has processed the current advertisement of each of its neighbours: nothing is left to do *)
+Definition fixedb (S : net) : bool :=
+  forallb (fun ri =>
+    forallb (fun j =>
+      match getr S j with
+      | Some rj => forallb (fun d => cost_via (rrib ri) d j =? offered (self ri) (rrib rj) d)
+                           (map fst (rrib ri) ++ map fst (rrib rj))
+      | None => true
+      end) (nbrs ri)) S.
